@@ -1233,14 +1233,399 @@ def w_c(ctx, task):
                                        for q in x.result['logins']]})
 
 
+# -- part C-hist / C-seg: login HISTORIES on one Connection object --------------
+
+ENDS = ('play', 'kick', 'drop', 'junk', 'early')
+END_TEXT = {
+    'play': 'encryption, login success, play traffic, client disconnects',
+    'kick': 'encryption, then an (encrypted) login Disconnect right after '
+            'the encryption response',
+    'drop': 'encryption, then the server closes the connection right after '
+            'the encryption response',
+    'junk': 'encryption, then 33 bytes that are not a CFB8 stream right '
+            'after the encryption response, then close',
+    'early': 'login Disconnect as the first packet (no encryption request)',
+}
+FAILING = ('kick', 'drop', 'junk', 'early')
+SEG_POLICIES = (('mss', 1), ('mss', 2), ('mss', 3), ('mss', 5), ('mss', 7),
+                ('mss', 16), ('mss', 33), ('cap', 2), ('cap', 4), ('cap', 8),
+                ('half',))
+PPL = (1.5, -64.25, 1000000.125, 90.0, -45.5)
+CHAT_IN = '{"text":"%s"}' % ('segmented body ' * 20)      # 2-byte length
+
+
+def seg_policy(policy, shorts):
+    """Read segmentation for vnet: how many bytes ONE raw read returns.
+    'mss' M: the server's byte stream arrives in segments of M bytes, a read
+    never crosses a segment boundary; 'cap' K: at most K bytes per read;
+    'half': half of what could be returned (rounded up)."""
+    if policy is None:
+        return None
+    kind = policy[0]
+
+    def seg(c, want, avail):
+        room = min(want, avail)
+        if kind == 'mss':
+            k = policy[1] - c.consumed % policy[1]
+        elif kind == 'cap':
+            k = policy[1]
+        else:
+            k = (room + 1) // 2
+        k = max(1, min(room, k))
+        if k < room:
+            shorts.append((c.id, c.consumed, want, k))
+        return k
+    return seg
+
+
+def login_script(end, token, i):
+    enc = ('encrypt', 'srv', token)
+    if end == 'play':
+        return [enc, ('success',)]
+    if end == 'kick':
+        return [enc, ('disconnect', '{"text":"You are not white-listed"}')]
+    if end == 'drop':
+        return [enc, ('close',)]
+    if end == 'junk':
+        return [enc, ('raw', _h(b'c18 junk %d' % i, 33)), ('close',)]
+    if end == 'early':
+        return [('disconnect', '{"text":"Server is full"}')]
+    raise ValueError(end)
+
+
+def body_h(W, hist, version, token, mode, shorts):
+    """hist: endings of consecutive logins on ONE Connection object.
+    mode 'driver': after a login that failed the driver calls connect()
+    again once everything is quiet; mode 'handler': the exception handler
+    given to the Connection calls connect() (from the networking thread)."""
+    from vf import harness
+    from vf.refproto import codec
+    from vf.refserver import CHAT_SENDER_FROM, TELEPORT_ID_FROM
+    from minecraft.networking.packets import serverbound, clientbound
+    W.serve(mode='burst', rsa=harness.rsa_key(),
+            per_conn=lambda i: {'login': login_script(
+                hist[min(i, len(hist) - 1)], token, i)})
+    errs, marks, raised, chat_in = [], [], [], []
+    st = {'left': 0}
+
+    def do_connect():
+        marks.append(len(W.S.urandom_log))
+        try:
+            conn.connect()
+            raised.append(None)
+        except ToolError:
+            raise
+        except Exception as e:
+            raised.append('%s: %s' % (type(e).__name__, e))
+
+    def on_exc(e, info):
+        errs.append(type(e).__name__)
+        if st['left'] > 0:
+            st['left'] -= 1
+            do_connect()
+    conn = W.connection(allowed_versions={version}, handle_exception=on_exc)
+    conn.register_packet_listener(
+        lambda p: chat_in.append(p.json_data),
+        clientbound.play.ChatMessagePacket)
+    recs = {}
+    j = 0
+    while j < len(hist):
+        chain = 0
+        if mode == 'handler':
+            while j + chain < len(hist) - 1 and hist[j + chain] != 'play':
+                chain += 1
+        st['left'] = chain
+        do_connect()
+        W.settle()
+        st['left'] = 0
+        last = j + chain
+        for i in range(j, last + 1):
+            if i >= len(W.servers):
+                break
+            srv = W.servers[i]
+            rec = recs[i] = {'how': 'driver' if i == j else 'handler'}
+            if i == last and hist[i] == 'play' and srv.state == 'play' \
+                    and type(conn.reactor).__name__ == 'PlayingReactor' \
+                    and not srv.errors:
+                ka = [2 ** 40 + 17 * i + 5, -(i + 1), 7]
+                if not srv.rank.ge(version, 339):
+                    ka = [2 ** 30 + 17 * i + 5, -(i + 1), 7]
+                tid = 300 + i
+                chats = [CHATS[(q + i) % len(CHATS)] for q in range(3)] \
+                    + [CHATS[3]]
+                n_in = len(chat_in)
+                try:
+                    for q, n in enumerate(ka):
+                        srv.play(('keepalive', n))
+                        conn.write_packet(serverbound.play.ChatPacket(
+                            message=chats[q]))
+                        W.settle()
+                    srv.play(('ppl',) + PPL + (0, tid))
+                    p = codec.string(CHAT_IN) + b'\x00'
+                    if srv.rank.ge(version, CHAT_SENDER_FROM):
+                        p += bytes(16)
+                    srv.play(('named', 'play.chat', p))
+                    W.settle()
+                    conn.write_packet(serverbound.play.ChatPacket(
+                        message=chats[3]), force=True)
+                    W.settle()
+                except ToolError:
+                    raise
+                except Exception as e:
+                    rec['write_raised'] = '%s: %s' % (type(e).__name__, e)
+                    W.settle()
+                rec.update(
+                    keepalives=ka, chats=chats,
+                    ppl=('teleport_confirm', tid)
+                    if srv.rank.ge(version, TELEPORT_ID_FROM)
+                    else ('position_and_look',) + PPL + (True,),
+                    chat_in=list(chat_in[n_in:]))
+            vc = srv.conn
+            off = vc.frame_ends[0] if vc.frame_ends else 0
+            rec.update(
+                state=srv.state, reactor=type(conn.reactor).__name__,
+                secret=srv.secret, token_back=srv.token_back,
+                errors=list(srv.errors), play_rx=list(srv.play_rx),
+                enc_bytes=srv.encrypted_rx_bytes, errs=list(errs),
+                asked_encryption=srv.verify_token is not None,
+                short_encrypted_reads=sum(
+                    1 for cid, consumed, want, k in shorts
+                    if cid == vc.id and consumed >= off and want > 1)
+                if srv.verify_token is not None else 0)
+        if conn.connected or conn.networking_thread is not None \
+                or (last < len(hist) and hist[last] == 'play'):
+            try:
+                conn.disconnect()
+            except Exception as e:
+                recs.setdefault(last, {})['disconnect_raised'] = \
+                    type(e).__name__
+            W.settle()
+        j = last + 1
+    log = list(W.S.urandom_log)
+    bounds_ = marks + [len(log)]
+    for i in range(len(marks)):
+        if i in recs:
+            recs[i]['draws'] = log[bounds_[i]:bounds_[i + 1]]
+            recs[i]['connect_raised'] = raised[i]
+    return {'logins': [recs.get(i) for i in range(len(hist))],
+            'servers': len(W.servers), 'connects': len(marks),
+            'raised': list(raised), 'errs': list(errs), 'urandom_log': log}
+
+
+def judge_h(x, hist, version, token, mode, policy):
+    """-> list of (key, what).  Only what the statement says: every login
+    that got an encryption request sends a secret that is the fresh 16-byte
+    draw of that login, secrets pairwise distinct, token back exactly,
+    traffic in both directions one CFB8 stream under that secret."""
+    if x.failure is not None:
+        return [('C-hist ' + x.failure[0], 'the client %s during the '
+                 'history: %s' % (x.failure[0], x.failure[1]))]
+    out = []
+    r = x.result
+    k = len(hist)
+    for j, rec in enumerate(r['logins']):
+        end = hist[j]
+        who = 'login %d of %d (%s)' % (j + 1, k, end)
+        if rec is None or 'state' not in rec:
+            out.append(('C-hist no connection', '%s did not take place: %d '
+                        'server connections for %d logins (connect() calls '
+                        '%d, raised %s, client errors %s)'
+                        % (who, r['servers'], k, r['connects'],
+                           [q for q in r['raised'] if q], r['errs'])))
+            continue
+        if end == 'early':
+            continue        # no encryption request: nothing to judge
+        if rec['secret'] is None:
+            out.append(('C-hist secret unreadable', '%s: the server could '
+                        'not recover a shared secret: %s'
+                        % (who, rec['errors'][:2])))
+            continue
+        draws = rec.get('draws', [])
+        fresh = draws[0] if draws else None
+        if rec['secret'] != fresh:
+            same = [i + 1 for i, q in enumerate(r['logins'][:j])
+                    if q and q.get('secret') == rec['secret']]
+            out.append(('C-hist secret not the fresh draw',
+                        '%s: the server decrypted secret %s; the OS random '
+                        'source (encryption.os.urandom) handed out %s during '
+                        'this login%s (secrets of all logins: %s)'
+                        % (who, rec['secret'].hex(),
+                           [d.hex() for d in draws] or 'nothing',
+                           '; it is the secret of login %s of the same '
+                           'Connection object' % same if same else '',
+                           [q.get('secret').hex() if q and q.get('secret')
+                            else None for q in r['logins']])))
+        elif len(draws) != 1 or len(draws[0]) != 16:
+            out.append(('C-hist draws', '%s made draws %s from the OS random '
+                        'source, expected exactly one of 16 bytes'
+                        % (who, [d.hex() for d in draws])))
+        if rec['token_back'] != token:
+            out.append(('C-hist token', '%s: the server recovered verify '
+                        'token %r, sent %s' % (who, rec['token_back'],
+                                               token.hex())))
+        if rec['errors']:
+            out.append(('C-hist traffic', '%s: what the client sent after '
+                        'the encryption response does not decode under '
+                        'CFB8(secret): %s' % (who, rec['errors'][:2])))
+            continue
+        if end != 'play':
+            continue
+        if rec['state'] != 'play' or rec['reactor'] != 'PlayingReactor' \
+                or 'keepalives' not in rec:
+            out.append(('C-hist no play', '%s: server state %s, client '
+                        'reactor %s, client errors %s'
+                        % (who, rec['state'], rec['reactor'], rec['errs'])))
+            continue
+        if rec.get('write_raised'):
+            out.append(('C-hist client broke down in play', '%s: '
+                        'write_packet raised %s (client errors %s)'
+                        % (who, rec['write_raised'], rec['errs'])))
+        kas = [p[1] for p in rec['play_rx'] if p[0] == 'keepalive']
+        chats = [p[1] for p in rec['play_rx'] if p[0] == 'chat']
+        if kas != rec['keepalives']:
+            out.append(('C-hist keep-alive echo', '%s: server sent '
+                        'keep-alives %r through the encrypted channel, '
+                        'echoes received %r (client errors %s)'
+                        % (who, rec['keepalives'], kas, rec['errs'])))
+        if rec['ppl'] not in rec['play_rx']:
+            out.append(('C-hist position echo', '%s: the server sent an '
+                        'encrypted player-position-and-look packet %r '
+                        '(teleport id %d); expected answer %r, serverbound '
+                        'packets decoded: %r (client errors %s)'
+                        % (who, PPL, rec['ppl'][1] if rec['ppl'][0] ==
+                           'teleport_confirm' else 0, rec['ppl'],
+                           [p for p in rec['play_rx']
+                            if p[0] not in ('chat', 'keepalive')][:4],
+                           rec['errs'])))
+        if rec['chat_in'] != [CHAT_IN]:
+            out.append(('C-hist received chat', '%s: the server sent one '
+                        'encrypted chat message of %d characters; the '
+                        'listener received %r (client errors %s)'
+                        % (who, len(CHAT_IN),
+                           [str(c)[:40] for c in rec['chat_in']],
+                           rec['errs'])))
+        if sorted(chats) != sorted(rec['chats']):
+            out.append(('C-hist chat', '%s: chat messages decoded by the '
+                        'server %r, sent %r' % (who, [c[:12] for c in chats],
+                                                [c[:12] for c in
+                                                 rec['chats']])))
+        if rec['enc_bytes'] <= 0:
+            out.append(('C-hist not encrypted', '%s: no encrypted bytes '
+                        'received' % who))
+    secs = [(j + 1, rec['secret']) for j, rec in enumerate(r['logins'])
+            if rec and rec.get('secret') is not None]
+    if len(set(q for _, q in secs)) != len(secs):
+        out.append(('C-hist secret reused', 'the same secret was sent in '
+                    'more than one login of the history: %s'
+                    % ['login %d: %s' % (j, q.hex()) for j, q in secs]))
+    return out
+
+
+def run_h(ctx, hist, version, ti, mode, policy):
+    from vf import harness
+    token = TOKENS_C[ti]
+    tag = '%r %d %d %s %r' % (hist, version, ti, mode, policy)
+    useed = (ctx.seed * 1009 + int.from_bytes(_h(tag.encode('ascii'), 3),
+                                              'big')) & 0x7FFFFFFF
+    shorts = []
+    x = harness.run(lambda W: body_h(W, hist, version, token, mode, shorts),
+                    horizon=600000, seed=useed,
+                    seg=seg_policy(policy, shorts))
+    return x, judge_h(x, hist, version, token, mode, policy)
+
+
+H_SECOND = 'C-hist: second login on the same Connection object'
+H_THIRD = 'C-hist: third login on the same Connection object'
+H_FROM_LOGIN = 'C-hist: login that follows a login ended in the login ' \
+    'state after the encryption response'
+H_FROM_EARLY = 'C-hist: login that follows a login refused before encryption'
+H_FROM_PLAY = 'C-hist: login that follows a login that reached play'
+H_HANDLER = 'C-hist: reconnect made by the exception handler (networking ' \
+    'thread)'
+H_SHORT = 'C-seg: underlying short read while an encrypted packet is read ' \
+    '(body arrives in 2+ segments)'
+
+
+def w_h(ctx, task):
+    hist, version, ti, mode, policy = task
+    x, res = run_h(ctx, hist, version, ti, mode, policy)
+    ctx.count()
+    ctx.note_distinct(1)
+    ctx.cls('C-hist: history of %d login(s)' % len(hist))
+    ctx.cls('C-hist: protocol %d' % version)
+    if policy is not None:
+        ctx.cls('C-seg: policy %s' % ' '.join(map(str, policy)))
+    if x.failure is None:
+        for j, rec in enumerate(x.result['logins']):
+            if rec is None or 'state' not in rec:
+                continue
+            ctx.cls('C-hist: login ending ' + hist[j])
+            if j >= 1:
+                ctx.cls(H_SECOND if j == 1 else H_THIRD)
+                ctx.cls(H_FROM_PLAY if hist[j - 1] == 'play' else
+                        H_FROM_EARLY if hist[j - 1] == 'early' else
+                        H_FROM_LOGIN)
+                if rec['how'] == 'handler':
+                    ctx.cls(H_HANDLER)
+            if rec.get('short_encrypted_reads'):
+                ctx.cls(H_SHORT, rec['short_encrypted_reads'])
+    coll = _Coll()
+    if not res:
+        ctx.outcome('C-hist ok: every secret is the fresh draw of its login, '
+                    'all distinct, traffic decrypts')
+    for key, what in res:
+        ctx.outcome('C-hist FAIL ' + key)
+        coll.add(key, (len(hist), 0 if policy is None else 1,
+                       0 if mode == 'driver' else 1,
+                       [ENDS.index(e) for e in hist], version, ti,
+                       list(policy or ())),
+                 'history %s on one Connection object (%s reconnects), '
+                 'protocol %d, verify token %s, read segmentation %s: %s'
+                 % (' > '.join(hist), mode, version, TOKENS_C[ti].hex(),
+                    'none' if policy is None else ' '.join(map(str, policy)),
+                    what),
+                 {'part': 'C-hist', 'history': list(hist),
+                  'version': version, 'token_index': ti, 'mode': mode,
+                  'policy': list(policy) if policy else None,
+                  'seed': ctx.seed})
+    coll.flush(ctx)
+    if task == (('kick', 'play'), 757, 1, 'driver', None) \
+            and x.failure is None:
+        ctx.sample({'part': 'C-hist', 'history': list(hist),
+                    'urandom_draws': x.result['urandom_log'],
+                    'server_secrets': [q.get('secret') if q else None
+                                       for q in x.result['logins']]})
+
+
+def hist_tasks(ctx):
+    prod = itertools.product
+    t = [(h, 757, 1, 'driver', None)
+         for k in (1, 2, 3) for h in prod(ENDS, repeat=k)]
+    t += [(h, v, ti, 'driver', None) for v, ti in ((47, 3), (340, 0))
+          for h in prod(ENDS, repeat=3 if ctx.thorough else 2)]
+    t += [((a, b), 757, 2, 'handler', None) for a in FAILING for b in ENDS]
+    t += [((a, b, c), 757, 2, 'handler', None) for a in FAILING
+          for b in FAILING for c in (ENDS if ctx.thorough else ('play',))]
+    if ctx.thorough:
+        t += [(h, 757, 1, 'driver', None) for h in prod(ENDS, repeat=4)]
+    # C-seg: the server's byte stream reaches the client in short reads
+    t += [(h, v, 1, 'driver', pol) for pol in SEG_POLICIES
+          for v in VERSIONS_RAW for h in (('play',), ('play', 'play'))]
+    t += [(h, 757, 3, 'driver', pol) for pol in SEG_POLICIES
+          for h in (('kick', 'play'), ('junk', 'play'))]
+    return t
+
+
 # -- driver -------------------------------------------------------------------
 
 def bounds(ctx):
     if ctx.thorough:
         return dict(full=7, full_both_pairs=6, long=range(8, 13),
-                    both_pairs_to=10, empty=5)
+                    both_pairs_to=10, empty=5, seg=10, seg_both_pairs=8,
+                    seg_over=6)
     return dict(full=6, full_both_pairs=6, long=range(7, 11),
-                both_pairs_to=8, empty=5)
+                both_pairs_to=8, empty=5, seg=8, seg_both_pairs=6,
+                seg_over=5)
 
 
 def run(ctx):
@@ -1280,9 +1665,23 @@ def run(ctx):
                 for s in range(nshard)]
     rsa = [(bits, pat, lo, lo + 7) for bits in (1024, 2048)
            for pat in ('zeros', 'ff', 'counter') for lo in range(1, 65, 8)]
+    segs = [(si, pi, n, 0) for si in range(4)
+            for n in range(1, b['seg'] + 1)
+            for pi in range(2 if n <= b['seg_both_pairs'] else 1)]
+    segs += [(si, 0, n, 1) for si in range(4)
+             for n in range(1, b['seg_over'] + 1)]
+    segs.sort(key=lambda t: (-t[2], t))
+    seg_kib = []
+    for size in SIZES_KIB:
+        ncase = len(seg_kib_cases(ctx, size))
+        nshard = max(1, ncase * size // (1 << 20))
+        seg_kib += [(si, size, s, nshard) for si in range(4)
+                    for s in range(nshard)]
     ctx.pmap(w_long, longs)
     ctx.pmap(w_full, full)
+    ctx.pmap(w_seg, segs)
     ctx.pmap(w_kib, kib)
+    ctx.pmap(w_seg_kib, seg_kib)
     ctx.pmap(w_empty, empties)
     ctx.pmap(w_rsa, rsa)
     # part C: harness executions, only ever inside workers
@@ -1297,11 +1696,19 @@ def run(ctx):
     tasks_c += [('same', k, v, 1, 'plain', L) for k in (1, 2)
                 for v in VERSIONS_RAW for L in range(1, RAW_MAX + 1)]
     ctx.pmap(w_c, tasks_c, chunksize=2)
+    tasks_h = hist_tasks(ctx)
+    ctx.pmap(w_h, tasks_h, chunksize=2)
     _settle_violations(ctx)
     ctx.extra['bounds'] = {
         'full_product_max_len': F, 'long_lengths': list(b['long']),
         'kib_partitions': {str(s): len(kib_cuts(ctx, s)) for s in SIZES_KIB},
-        'rsa_cases': len(rsa) * 8 * 4, 'login_scenarios': len(tasks_c)}
+        'seg_max_len': b['seg'],
+        'seg_kib_cases': {str(s): len(seg_kib_cases(ctx, s))
+                          for s in SIZES_KIB},
+        'rsa_cases': len(rsa) * 8 * 4, 'login_scenarios': len(tasks_c),
+        'login_histories': len(tasks_h),
+        'login_histories_with_read_segmentation': sum(
+            1 for t in tasks_h if t[4] is not None)}
     # vacuity guards
     need = ['A interleaving: directions alternate every call',
             'A out: every call 1 byte', 'A in: every call 1 byte',
@@ -1311,7 +1718,12 @@ def run(ctx):
             'C 3 consecutive login(s), same Connection object',
             'C a queued packet waits when the encryption request is handled '
             '(plugin request + encryption request in one burst)',
-            'C installed wrappers: raw stream length %d' % RAW_MAX]
+            'C installed wrappers: raw stream length %d' % RAW_MAX,
+            SEG_SHORT, 'A-seg: short raw reads and two or more requests',
+            'A-seg stream length %d' % b['seg'],
+            'A-seg KiB: 4096 bytes in many segments',
+            H_SECOND, H_THIRD, H_FROM_LOGIN, H_FROM_EARLY, H_FROM_PLAY,
+            H_HANDLER, H_SHORT] + ['C-hist: login ending ' + e for e in ENDS]
     missing = [k for k in need if not ctx.classes.get(k)]
     if missing and not ctx.violations:   # (a broken tree may not get there)
         raise ToolError('vacuity guard: classes never hit: %r' % missing)
@@ -1326,6 +1738,18 @@ def replay(ctx, case):
                  tuple(case['out_parts']),
                  tuple((k, n) for k, n in case['in_calls']),
                  tuple(case['order']))
+    elif case['part'] == 'A-seg':
+        _judge_seg(coll, case.get('tag', 'replay'), env(),
+                   case['secret_name'], case['secret'], case['in_plain'],
+                   tuple(case['segs']), tuple(case['asks']), case['style'])
+    elif case['part'] == 'C-hist':
+        ctx.seed = case.get('seed', ctx.seed)
+        pol = case.get('policy')
+        x, res = run_h(ctx, tuple(case['history']), case['version'],
+                       case['token_index'], case['mode'],
+                       tuple(pol) if pol else None)
+        for key, what in res:
+            coll.add(key, (0,), what, case)
     elif case['part'] == 'B':
         res, _ = judge_rsa(env(), case['bits'], case['pattern'], case['n'],
                            case['secret_name'], case['secret'])
